@@ -14,10 +14,12 @@ LEVEL_NOTE = "necessary conditions only; the DPOR completeness theorem is not de
 
 
 def run(ctx):
-    g_dpor.run_all(ctx, ["V1", "V2", "V3", "T1", "T2", "T3", "T4", "T5", "T6"])
+    g_dpor.run_all(ctx, ["V1", "V2", "V3", "T1", "T2", "T3", "T4", "T5", "T6", "T7", "T8"])
     from . import g_state, pathrules
     g_state.S9(ctx)
     # where a race is turned into a backtrack point: the racing thread if it is enabled there, otherwise every thread (the one
     # that can unblock it is unknown); and the walk back to a point that may still be changed
     pathrules.E1(ctx)
     pathrules.B1(ctx)
+    from . import atomics
+    atomics.M5b(ctx)
